@@ -144,3 +144,32 @@ Proof.
   intros Hy Hm Hd. exists (days_spec y m 1). rewrite !ymd_to_days_ok by lia.
   split; [reflexivity|]. f_equal. apply days_spec_linear.
 Qed.
+
+(** * the length of a month / a year as a difference of day numbers *)
+Lemma leap_cases y : leap y = true \/ leap y = false.
+Proof. destruct (leap y); [left|right]; reflexivity. Qed.
+
+Theorem month_length y m : 1 <= m <= 12 ->
+  let '(y', m') := year_month_plus_spec y m 1 in days_spec y' m' 1 - days_spec y m 1 = dim y m.
+Proof.
+  intros Hm. unfold year_month_plus_spec.
+  case_month m Hc;
+    (match goal with |- context [(?a - 1 + 1) / 12] =>
+       let q := eval vm_compute in ((a - 1 + 1) / 12) in change ((a - 1 + 1) / 12) with q;
+       let r := eval vm_compute in ((a - 1 + 1) mod 12 + 1) in change ((a - 1 + 1) mod 12 + 1) with r end);
+    unfold days_spec, days_before_month, dim;
+    repeat (match goal with |- context [nth ?n cum_table 0] =>
+       let v := eval vm_compute in (nth n cum_table 0) in change (nth n cum_table 0) with v end);
+    cbn [Z.ltb Z.eqb Z.compare Pos.compare Pos.compare_cont Pos.eqb andb orb];
+    rewrite ?Z.add_0_r;
+    try (unfold days_before_year, leaps_before);
+    destruct (leap_cases y) as [E|E]; try rewrite E; cbn [andb];
+    try (unfold leap in E); try lia.
+Qed.
+
+Theorem year_length y : days_spec (y + 1) 1 1 - days_spec y 1 1 = 365 + (if leap y then 1 else 0).
+Proof.
+  unfold days_spec, days_before_month, days_before_year, leaps_before.
+  change (nth (Z.to_nat (1 - 1)) cum_table 0) with 0. cbn [Z.ltb Z.compare Pos.compare Pos.compare_cont andb].
+  destruct (leap_cases y) as [E|E]; rewrite E; unfold leap in E; lia.
+Qed.
